@@ -121,7 +121,8 @@ def hist_with_gen(h):
 
 
 GEN_NOTE = ("the leaf functions (NewlineIndex, NextChunk, trimFirstSpace, getFieldName, splitFunc, FieldParser.*, isSingleLine, "
-            "topicsIntersect, queue.enqueue/dequeue/resize) are translated from /repo's source to Lean on every run (translate/) and proved equal to the "
+            "topicsIntersect, queue.enqueue/dequeue/resize), the encoding side, bufio.Scanner.Scan and replay.go (ensureID, queue.each, "
+            "findIDInQueue, FiniteReplayer.Put/Replay, ValidReplayer.Put/GC/Replay) are translated from /repo's source to Lean on every run (translate/) and proved equal to the "
             "model (GoSSE/Proofs/GenEquiv*.lean); the translator's reading of Go (GoSSE/GoRT.lean) is validated by the GEN ops")
 
 PROPS["C01"] = {
